@@ -1,0 +1,45 @@
+//! Verification hook H3: named gates before each step of the thread
+//! spawn / join / drop / exit protocol (`thread/spawn.rs`).
+//!
+//! A checker installs a gate function; every protocol step then first calls it with
+//! the step's id and the address of the thread's shared join block (which identifies
+//! the thread at every site). Without an installed function a gate does nothing.
+use core::sync::atomic::{AtomicUsize, Ordering};
+
+static GATE_FN: AtomicUsize = AtomicUsize::new(0);
+
+pub const SPAWN_BLOCK_ALLOCATED: u32 = 1;
+pub const SPAWN_STACK_MAPPED: u32 = 2;
+pub const SPAWN_BEFORE_CLONE: u32 = 3;
+pub const SPAWN_AFTER_CLONE: u32 = 4;
+pub const JOIN_BEFORE_WAIT: u32 = 10;
+pub const JOIN_BEFORE_READ_RESULT: u32 = 11;
+pub const JOIN_BEFORE_FREE_BLOCK: u32 = 12;
+pub const DROP_BEFORE_CAS: u32 = 20;
+pub const DROP_BEFORE_WAIT: u32 = 21;
+pub const DROP_BEFORE_FREE_BLOCK: u32 = 22;
+pub const THREAD_BEFORE_BODY: u32 = 30;
+pub const THREAD_BEFORE_STORE_RESULT: u32 = 31;
+pub const THREAD_BEFORE_CAS: u32 = 32;
+pub const THREAD_BEFORE_RESET_TID: u32 = 33;
+pub const THREAD_BEFORE_FREE_BLOCK: u32 = 34;
+pub const THREAD_BEFORE_FREE_TLS: u32 = 35;
+pub const PANIC_BEFORE_FREE_TLS: u32 = 40;
+pub const PANIC_BEFORE_CAS: u32 = 41;
+pub const PANIC_BEFORE_RESET_TID: u32 = 42;
+pub const PANIC_BEFORE_FREE_BLOCK: u32 = 43;
+pub const PANIC_BEFORE_UNMAP_EXIT: u32 = 44;
+
+/// Install the gate function (`None` removes it)
+pub fn set_gate_fn(f: Option<fn(u32, usize)>) {
+    GATE_FN.store(f.map_or(0, |f| f as usize), Ordering::SeqCst);
+}
+
+#[inline]
+pub(crate) fn gate(id: u32, join_block: usize) {
+    let f = GATE_FN.load(Ordering::SeqCst);
+    if f != 0 {
+        let f: fn(u32, usize) = unsafe { core::mem::transmute(f) };
+        f(id, join_block);
+    }
+}
